@@ -323,6 +323,18 @@ func ruleAdminPurge(c *Ctx) {
 				}
 			}
 		}
+		// a request that carries a key is purged: no path answers success without the call
+		if keyQ != nil && pr.Exit == "return" && len(pr.Results) == 1 && pr.Results[0].IsNil() {
+			called := false
+			for _, e := range pr.Events {
+				if e.Kind == "call" && e.Callee != nil && e.Callee.String() == pikeMod+"/cache.RemoveHTTPCache" {
+					called = true
+				}
+			}
+			if kk, isEmpty := pr.Facts.Decide(eqTerm(keyQ, strTerm(""))); !called && kk && !isEmpty {
+				bad = append(bad, "answers success for a non-empty key without calling the purge (a repeated purge after a refetch is dropped; the entry and its persisted copy survive) on path ["+condString(pr.Conds)+"]")
+			}
+		}
 		for _, e := range pr.Events {
 			if e.Kind == "call" && e.Callee != nil && e.Callee.String() == pikeMod+"/cache.RemoveHTTPCache" {
 				purges++
